@@ -174,8 +174,10 @@ pub fn random(args: &Args) {
                 let mut reply = DhcpMsg { op: 2, xid: m.xid, yiaddr: [10, 0, 0, 77], chaddr: MY_MAC, mtype: if m.mtype == 1 { 2 } else { 5 }, server_id: Some(SRV_IP),
                     lease: if rng.chance(90) { Some(lease) } else { None }, t1, t2, mask: Some([255, 255, 255, 0]), router: Some([10, 0, 0, 254]), ..Default::default() };
                 let delay = rng.range(1, 300) as i64;
+                let mut corrupt = false;
                 if rng.chance(hostile) {
-                    match rng.below(9) {
+                    match rng.below(10) {
+                        9 => corrupt = true,                          // damaged in transit: the UDP checksum does not verify
                         0 => reply.xid ^= 0x10,                       // stale / foreign transaction id
                         1 => reply.chaddr = [2, 0, 0, 0, 0, 9],       // foreign hardware address
                         2 => reply.server_id = None,                  // no server identifier
@@ -197,7 +199,13 @@ pub fn random(args: &Args) {
                     }
                 }
                 let uni = if rng.chance(30) { cur_addr } else { None };
-                pending.push((now + delay, server_frame(&reply, uni)));
+                let mut fr = server_frame(&reply, uni);
+                if corrupt {
+                    // one bit of the offered address (inside what the UDP checksum covers)
+                    let at = 14 + 20 + 8 + 16 + 3;
+                    fr[at] ^= 0x04;
+                }
+                pending.push((now + delay, fr));
             }
             // unsolicited server traffic
             if rng.chance(3) {
